@@ -219,13 +219,21 @@ def _resolve_region(case, k):
         c['plan'] = {'pct': [], 'region': None, 'p': 0.0, 'sseed': 0}
         s, _, _ = _concurrent(c)
         cat = set(tuple(x) for x in case.get('catalogue') or catalogue())
-        shared = sorted(s.shared_functions() & cat)
+        both = sorted(s.shared_functions() & cat)
+        # executed by one caller only (e.g. an error path that writes what a
+        # concurrent success path reads)
+        single = sorted((s.executed_functions() & cat) - set(both))
+        shared = (both, single)
         if len(_SHARED_CACHE) > 500:
             _SHARED_CACHE.clear()
         _SHARED_CACHE[key] = shared
-    if not shared:
-        return None
-    return list(shared[k % len(shared)])
+    both, single = shared
+    # three quarters of the draws go to functions two callers execute
+    if both and (k % 4 != 3 or not single):
+        return list(both[(k // 4) % len(both)])
+    if single:
+        return list(single[(k // 4) % len(single)])
+    return None
 
 
 def _reference(case, ci, ri):
